@@ -74,7 +74,7 @@ def r2(rr, repo):
     for p in paths:
         isjpg = [v for k, v in p.pc if k.startswith('eq(') and "b'\\xff\\xd8'" in k]
         dec = [e for e in p.events if e.kind == 'store' and e.term.endswith('._Frame__image') and 'decode(' in e.args[0]]
-        if dec and isjpg and isjpg[0] is True:
+        if dec and (not isjpg or isjpg[0] is True):   # a path that never tests the magic covers jpg blobs too
             n += 1
             fz = [e for e in p.events if e.kind == 'store' and e.term.endswith('.flags.writeable') and e.args[0] == 'False' and e.term.startswith(dec[0].args[0])]
             rr.ob('from_blob: an eagerly decoded image that keeps its jpg is made read-only', bool(fz), mod, dec[0].node, witness=p.pc_text(), key='from_blob-freeze')
